@@ -354,7 +354,16 @@ def isErrRet (r : Ret) : Bool :=
   | .err k => decide (400 ≤ k)
   | _ => false
 
+/-- a path argument that is not in canonical form (an empty, "." or ".." segment): not a valid argument of the
+    REST API, whose router redirects such URLs; nothing may be performed for it and the caller must get an error -/
+def callNonCanonical : Call → Bool
+  | .pinPath p _ | .unpinPath p => p.any (fun s => s.txt == "" || s.txt == "." || s.txt == "..")
+  | _ => false
+
 def cliClauses (cfg : CliCfg) (c : Call) (ops : List Op) (ret : Ret) : List (String × Bool) :=
+  if callNonCanonical c then
+    [("client_noncanonical_refused", ops.isEmpty && (ret == .clientErr || isErrRet ret))]
+  else
   match callWant c with
   | none => [("client_refuses_invalid", ops.isEmpty && ret == .clientErr)]
   | some w =>
